@@ -208,6 +208,11 @@ def reset_initial_conditions(
         # Reset water content to starting conditions
         # (a copy, so that in-place updates of th never alter thini)
         InitCond.th = np.copy(InitCond.thini)
+        # No evaporation / transpiration demand is carried over from the last
+        # day of the previous season (read by irrigation and root development
+        # on the first day of the new season)
+        InitCond.e_pot = 0
+        InitCond.t_pot = 0
         # Reset surface storage
         if (FieldMngt.bunds) and (FieldMngt.z_bund > 0.001):
             # Get initial storage between surface bunds
